@@ -2,23 +2,26 @@
 from harness import coqio as q
 
 ID = "C08"
-COQ_REQUIRE = ["Net", "M_SyncMixin"]
-COQ_CASE_TYPE = "M_SyncMixin.case"
-COQ_CHECK = "M_SyncMixin.check_case"
+COQ_REQUIRE = ["Net", "NetPause", "M_SyncMixin", "M_SyncPause"]
+COQ_CASE_TYPE = "M_SyncPause.pcase"
+COQ_CHECK = "M_SyncPause.check_pcase"
 OBLIGATIONS = ["sync_no_error", "sync_round_inputs", "sync_log_unique", "sync_rounds_consecutive",
-               "sync_neighbours_one_apart", "sync_never_stuck"]
+               "sync_neighbours_one_apart", "sync_never_stuck",
+               "pause_is_stutter", "resumed_is_plain", "sync_no_error_paused", "sync_neighbours_one_apart_paused"]
 N_QUICK, N_THOROUGH = 300, 4000
 PARALLEL = 8
 RULE = ("random graphs of 1-6 nodes (90% symmetric), a table-driven synchronous test algorithm sending an "
         "oracle-chosen payload to an arbitrary subset of neighbours each round via post_msg and/or the "
         "returned list (85% valid plans, 15% with duplicate / non-neighbour targets to reach the error "
         "branches), random start orders and per-channel-FIFO schedules from 6 policies, 25% of them with "
-        "pause/resume of started computations (a stutter of the model: held messages are not model "
-        "deliveries); plus the real "
+        "pause/resume of started computations (the model runs the full schedule on the extended network "
+        "NetPause.erun, its projection must be the driver's model schedule and the plain run of that "
+        "projection must agree as well - the instance of pause_is_stutter); plus the real "
         "dsatuto and maxsum computations on random DCOPs (oracle only). non-trivial = at least one "
         "on_new_cycle call with a non-empty message dict; distinct = distinct case JSON")
 MODELLED = ("SynchronousComputationMixin (__init__, _sync_message_handler, post_msg, start, _switch_cycle) and "
-            "MessagePassingComputation.start/on_message pre-start buffering are modelled; theorems hold for every "
+            "MessagePassingComputation.start/on_message pre-start buffering and pause()/resume of started "
+            "computations (NetPause.v) are modelled; theorems hold for every "
             "symmetric graph, every hosted algorithm whose targets are distinct neighbours and every schedule. "
             "The real dsatuto/maxsum computations are checked by the oracle only (their own models belong to C05/C06).")
 META = dict(
@@ -31,8 +34,10 @@ META = dict(
                 "the same schedules on the real mixin (thread-free driver) and comparing every on_new_cycle "
                 "argument, exception, cycle counter and in-flight message."),
     level_note=("Trusted: Coq kernel/vm_compute, M_SyncMixin.v + Net.v as a rendering of the Python code, the "
-                "thread-free netdriver (real agent threads/queues are C18/C21's subject). Pause/resume enters "
-                "only as a stutter of the model (its own ordering contract is C19's)."),
+                "thread-free netdriver (real agent threads/queues are C18/C21's subject). Pause/resume of "
+                "started computations is modelled (NetPause.v) and proved to be a stutter of Net.v for every "
+                "protocol; pausing a computation that is not started is not modelled (the driver never does it; "
+                "the ordering contract of the hold buffers themselves is C19's)."),
     technique="Coq invariant proof over an executable network model + schedule-replay correspondence",
     design_ref="DESIGN.md §5 C08",
 )
@@ -191,7 +196,7 @@ def _run_table(c):
     for (s, d), ql in sorted(drv.chans.items()):
         if d in comps:
             inflight.append([s, d, [[m.cycle_id, getattr(m, "value", None) if m.type == "tbl" else None] for m in ql]])
-    return dict(log=log, sched=drv.model_schedule, nsched=len(drv.schedule), cycles=[[n_, comps[n_].current_cycle] for n_ in sorted(comps)],
+    return dict(log=log, sched=drv.model_schedule, full=drv.schedule, cycles=[[n_, comps[n_].current_cycle] for n_ in sorted(comps)],
                 inflight=inflight, sends=sends)
 
 
@@ -342,7 +347,9 @@ def coq_case(c, o):
     cycles = q.lst([q.pair(q.z(_idx(n_)), q.z(k)) for n_, k in o["cycles"]])
     infl = q.lst(["(%s, %s, %s)" % (q.z(_idx(s)), q.z(_idx(d)), q.lst([q.pair(q.z(st), q.opt(v, q.z)) for st, v in l]))
                   for s, d, l in o["inflight"]])
-    return "mkCase %s %s %s %s %s %s" % (graph, plan, sched, q.lst(evs), cycles, infl)
+    ename = {"S": "EStart", "D": "EDeliver", "P": "EPause", "R": "EResume"}
+    full = q.lst(["%s %s" % (ename[a[0]], " ".join(q.z(_idx(x)) for x in a[1:])) for a in o["full"]])
+    return "mkPCase (mkCase %s %s %s %s %s %s) %s" % (graph, plan, sched, q.lst(evs), cycles, infl, full)
 
 
 def nontrivial(c, o):
